@@ -1,7 +1,7 @@
 SPECIFICATION TSpec
 CONSTANTS
   FIXED = TRUE
-  CHECK_WORK = FALSE
+  CHECK_WORK = TRUE
   CHECK_LEAKS = FALSE
 INVARIANTS RefsAreOwners HeadersAtBoundaries NormalIsBasic DeferredOrdered DeferOnlyAtEnd DecoderOnlyForNormal
 PROPERTIES EofStickyT
